@@ -39,6 +39,9 @@ pub struct Deserializer<'xml> {
 
     /// store an extra event
     next_slot: Option<DeEvent<'xml>>,
+
+    /// number of elements that are open at the reader position
+    depth: usize,
 }
 
 /// XML deserialization result
@@ -103,6 +106,7 @@ impl<'xml> Deserializer<'xml> {
             inner: Reader::from_reader(xml),
             peeked: None,
             next_slot: None,
+            depth: 0,
         }
     }
 
@@ -114,10 +118,28 @@ impl<'xml> Deserializer<'xml> {
         loop {
             let ev = self.inner.read_event().map_err(invalid_xml)?;
             let de = match ev {
-                Event::Start(x) => DeEvent::Start(x),
-                Event::End(x) => DeEvent::End(x),
-                Event::Text(x) => DeEvent::Text(x),
-                Event::CData(x) => DeEvent::CData(x),
+                Event::Start(x) => {
+                    self.depth += 1;
+                    DeEvent::Start(x)
+                }
+                Event::End(x) => {
+                    self.depth = self.depth.saturating_sub(1);
+                    DeEvent::End(x)
+                }
+                Event::Text(x) => {
+                    // Only white space may stand outside the root element.
+                    if self.depth == 0 && !x.iter().all(|&b| is_xml_whitespace(b)) {
+                        return Err(DeError::InvalidContent);
+                    }
+                    DeEvent::Text(x)
+                }
+                Event::CData(x) => {
+                    // A CDATA section is character data: not allowed outside the root element.
+                    if self.depth == 0 {
+                        return Err(DeError::InvalidContent);
+                    }
+                    DeEvent::CData(x)
+                }
                 Event::Eof => DeEvent::Eof,
 
                 Event::Empty(x) => {
@@ -343,6 +365,11 @@ impl fmt::Debug for Deserializer<'_> {
     fn fmt(&self, f: &mut fmt::Formatter<'_>) -> fmt::Result {
         f.debug_struct("Deserializer").finish_non_exhaustive()
     }
+}
+
+/// White space of XML 1.0: space, tab, carriage return, line feed
+const fn is_xml_whitespace(b: u8) -> bool {
+    matches!(b, b' ' | b'\t' | b'\r' | b'\n')
 }
 
 /// helper
